@@ -4,6 +4,7 @@
 
 mod enc;
 mod ops_chars;
+mod ops_dom;
 mod ops_names;
 mod ops_xml;
 
@@ -15,6 +16,7 @@ fn dispatch(op: &str, args: &[String]) -> String {
         "classes" => ops_chars::classes(),
         "class1" => ops_chars::class1(args),
         "accept" => ops_xml::accept(args),
+        "chardata" => ops_dom::chardata(args),
         "nameok" => ops_names::nameok(args),
         _ => "bad-op".to_string(),
     }
